@@ -1,0 +1,54 @@
+//! Objects written through `Installation::write_file` survive closing and
+//! reopening the installation.
+
+#![allow(clippy::expect_used)]
+
+use cascette_client_storage::Installation;
+use cascette_crypto::EncodingKey;
+use cascette_formats::CascFormat;
+use cascette_formats::blte::{BlteFile, CompressionMode};
+
+/// Encoding key `write_file` stores uncompressed content under.
+fn encoding_key_of(content: &[u8]) -> EncodingKey {
+    let blte = BlteFile::single_chunk(content.to_vec(), CompressionMode::None)
+        .expect("single chunk")
+        .build()
+        .expect("build");
+    EncodingKey::from_data(&blte)
+}
+
+#[tokio::test]
+async fn written_files_are_found_after_reopen() {
+    let dir = tempfile::tempdir().expect("tempdir");
+    let first = vec![0x11u8; 300];
+    let second = vec![0x22u8; 700];
+
+    {
+        let install = Installation::open(dir.path().to_path_buf()).expect("open");
+        install.initialize().await.expect("initialize");
+        install
+            .write_file(first.clone(), false)
+            .await
+            .expect("write first");
+        install
+            .write_file(second.clone(), false)
+            .await
+            .expect("write second");
+    }
+
+    let install = Installation::open(dir.path().to_path_buf()).expect("reopen");
+    install.initialize().await.expect("initialize after reopen");
+
+    for content in [first, second] {
+        let key = encoding_key_of(&content);
+        assert!(
+            install.has_encoding_key(&key).await,
+            "index entry must survive reopen"
+        );
+        let read = install
+            .read_file_by_encoding_key(&key)
+            .await
+            .expect("read after reopen");
+        assert_eq!(read, content);
+    }
+}
